@@ -1,10 +1,11 @@
 // C54: mod_compress GzipFilter/BrotliFilter.Read and compressHandler vs model Compress.v.
-// op 1: [1, codec, level, flushSize, [chunk...], p]  => [[c per Read call...], decoded, ok]
-// op 2: [2, cmd, hasRule, AE, CE, hasCL, level, flushSize, body] => [CE', hasCL', wrapped, decoded, ok]
+// op 1: [1, codec, level, flushSize, [chunk...], p, srcerr]  => [[c per Read call...], decoded, ok, closes]
+// op 2: [2, cmd, rule mode, AE, CE, hasCL, level, flushSize, body] => [CE', hasCL', wrapped, decoded, ok]
 package main
 
 import (
 	"bytes"
+	"errors"
 	"compress/gzip"
 	"io"
 	"io/ioutil"
@@ -20,10 +21,17 @@ import (
 type chunkSource struct {
 	chunks [][]byte
 	taken  int64
+	fail   bool // after the chunks: an error instead of EOF
+	closes int
 }
+
+var errBackend = errors.New("backend failed")
 
 func (s *chunkSource) Read(p []byte) (int, error) {
 	if len(s.chunks) == 0 {
+		if s.fail {
+			return 0, errBackend
+		}
 		return 0, io.EOF
 	}
 	ch := s.chunks[0]
@@ -36,8 +44,9 @@ func (s *chunkSource) Read(p []byte) (int, error) {
 	s.taken += int64(n)
 	return n, nil
 }
-func (s *chunkSource) Close() error { return nil }
+func (s *chunkSource) Close() error { s.closes++; return nil }
 
+// decode returns what decompresses (also of a truncated stream) and whether the stream ended cleanly
 func decode(codec int, data []byte) ([]byte, bool) {
 	switch codec {
 	case 1:
@@ -55,9 +64,12 @@ func decode(codec int, data []byte) ([]byte, bool) {
 	return data, true
 }
 
+var lastErr error
+
 // drain reads f with buffers of size p until EOF; returns per-call source consumption and all bytes received
 func drain(f io.Reader, src *chunkSource, p int) (hv.L, []byte, bool) {
 	pulls := hv.L{}
+	lastErr = nil
 	var got []byte
 	buf := make([]byte, p)
 	for calls := 0; calls < 100000; calls++ {
@@ -74,6 +86,7 @@ func drain(f io.Reader, src *chunkSource, p int) (hv.L, []byte, bool) {
 			return pulls, got, true
 		}
 		if err != nil {
+			lastErr = err
 			return pulls, got, false
 		}
 	}
@@ -99,10 +112,24 @@ func impl(in hv.Val) hv.Val {
 		if err != nil {
 			return hv.Err(1)
 		}
+		src.fail = hv.AsInt(l[6]) != 0
 		pulls, got, ok := drain(f, src, int(hv.AsInt(l[5])))
 		f.Close()
 		dec, ok2 := decode(codec+1, got)
-		return hv.L{pulls, hv.B(dec), hv.Bool(ok && ok2)}
+		if src.fail {
+			// the filter must report the backend's error instead of a clean end (whether a decoder notices the
+			// truncation of the stream is the decoder's business: brotli's does not at a flush boundary)
+			_ = ok2
+			code := 2
+			if ok {
+				code = 1
+			}
+			if lastErr != errBackend {
+				code = 3
+			}
+			return hv.L{pulls, hv.B(dec), hv.I(code), hv.I(src.closes)}
+		}
+		return hv.L{pulls, hv.B(dec), hv.Bool(ok && ok2), hv.I(src.closes)}
 	case 2:
 		cmd := []string{"GZIP", "BROTLI", "DEFLATE", ""}[hv.AsInt(l[1])]
 		ae := hv.AsStr(l[3])
@@ -112,7 +139,7 @@ func impl(in hv.Val) hv.Val {
 		if len(body) == 0 {
 			src.chunks = nil
 		}
-		ce2, cl2, wrapped, rd := mod_compress.VerifHandler(cmd, hv.AsInt(l[2]) != 0, int(hv.AsInt(l[6])), int(hv.AsInt(l[7])),
+		ce2, cl2, wrapped, rd := mod_compress.VerifHandler(cmd, int(hv.AsInt(l[2])), int(hv.AsInt(l[6])), int(hv.AsInt(l[7])),
 			ae, ae != "", ce, ce != "", hv.AsInt(l[5]) != 0, src)
 		_, got, ok := drain(rd, nil, 512)
 		codec := 0
@@ -224,10 +251,16 @@ func gen(r *hv.Rng, i int, tier string) (string, hv.Val) {
 		if p < 8 {
 			class += "-smallbuf"
 		}
-		return class, hv.L{hv.I(1), hv.I(codec), hv.I(level), hv.I(flush), chunks, hv.I(p)}
+		srcerr := 0
+		if r.Chance(1, 8) { // failing backend; a large client buffer so that every completed Read is fully delivered
+			srcerr = 1
+			p = 32768
+			class += "-srcerr"
+		}
+		return class, hv.L{hv.I(1), hv.I(codec), hv.I(level), hv.I(flush), chunks, hv.I(p), hv.I(srcerr)}
 	}
 	cmd := pick(r, 0, 0, 0, 0, 1, 1, 2, 3)
-	hasRule := !r.Chance(1, 8)
+	rule := pick(r, 1, 1, 1, 1, 1, 3, 3, 0, 2)
 	ae := r.Pick(aes)
 	ce := r.Pick(ces)
 	hasCL := r.Chance(2, 3)
@@ -240,7 +273,7 @@ func gen(r *hv.Rng, i int, tier string) (string, hv.Val) {
 	} else if ae == "" {
 		class = "handler-noae"
 	}
-	return class, hv.L{hv.I(2), hv.I(cmd), hv.Bool(hasRule), hv.S(ae), hv.S(ce), hv.Bool(hasCL), hv.I(level), hv.I(flush), hv.B(body)}
+	return class, hv.L{hv.I(2), hv.I(cmd), hv.I(rule), hv.S(ae), hv.S(ce), hv.Bool(hasCL), hv.I(level), hv.I(flush), hv.B(body)}
 }
 
 func main() {
